@@ -668,7 +668,15 @@ pub(crate) fn shr(lhs: Number, rhs: Number, arena: &mut Arena) -> Result<Number,
                 }
             };
 
-            Ok(Number::arena_from(Integer::from(&*lhs >> rhs), arena))
+            // floor(x / 2^n) for negative x is !(!x >> n); dashu's own `>>` on negative numbers
+            // returns 0 instead of -1 once every set bit of a power of two is shifted out
+            let shifted = if lhs.is_negative() {
+                !(Integer::from(!&*lhs) >> rhs)
+            } else {
+                Integer::from(&*lhs >> rhs)
+            };
+
+            Ok(Number::arena_from(shifted, arena))
         }
         other => Err(numerical_type_error(ValidType::Integer, other, stub_gen)),
     }
